@@ -489,3 +489,139 @@ func RunRelit(conf core.Config, patterns ...string) *core.Result {
 	}
 	return res
 }
+
+// RunMapInit implements GRAPHINV.mapinit: the adjacency structures are maps
+// of maps; a statement that installs a fresh inner map, `g.R[a] = map…{…}`,
+// throws away every entry the old inner map held, so it is executed only
+// where g.R[a] is known to be absent: under `g.R[a] == nil`, in the not-found
+// arm of `if m, ok := g.R[a]; ok/!ok`, or in a method that has just checked
+// that the key is new (AddNode panics on a collision first) or deletes the key
+// (RemoveNode re-creating an empty row). Reported: such an assignment whose
+// controlling conditions test something else (`g.R[a][b] == nil` is true for
+// a missing b as well as for a missing a).
+func RunMapInit(conf core.Config, patterns ...string) *core.Result {
+	res := core.NewResult("GRAPHMAPINIT")
+	res.Rules = append(res.Rules, "GRAPHINV.mapinit: an assignment of a fresh map to an element of a map-of-maps field of the receiver is controlled by a test that this very element is nil or absent")
+	res.Configs = append(res.Configs, conf.String())
+	pkgs, err := core.Load(conf, patterns...)
+	if err != nil {
+		res.Brokenf("%v", err)
+		return res
+	}
+	for _, pkg := range pkgs {
+		info := pkg.TypesInfo
+		for _, file := range pkg.Syntax {
+			for _, d := range file.Decls {
+				fd, ok := d.(*ast.FuncDecl)
+				if !ok || fd.Body == nil || fd.Recv == nil || len(fd.Recv.List) != 1 || len(fd.Recv.List[0].Names) != 1 {
+					continue
+				}
+				recv := info.Defs[fd.Recv.List[0].Names[0]]
+				name := core.FuncName(pkg, fd)
+				par := cfgx.Parents(fd.Body)
+				ast.Inspect(fd.Body, func(n ast.Node) bool {
+					as, ok := n.(*ast.AssignStmt)
+					if !ok || as.Tok != token.ASSIGN || len(as.Lhs) != 1 || len(as.Rhs) != 1 {
+						return true
+					}
+					ix, ok := ast.Unparen(as.Lhs[0]).(*ast.IndexExpr)
+					if !ok {
+						return true
+					}
+					sel, ok := ast.Unparen(ix.X).(*ast.SelectorExpr)
+					if !ok {
+						return true
+					}
+					if id, ok := ast.Unparen(sel.X).(*ast.Ident); !ok || core.ObjOf(info, id) != recv {
+						return true
+					}
+					// the element type must itself be a map, and the value a fresh map
+					tv, ok := info.Types[as.Lhs[0]]
+					if !ok {
+						return true
+					}
+					if _, isMap := tv.Type.Underlying().(*types.Map); !isMap {
+						return true
+					}
+					fresh := false
+					switch r := ast.Unparen(as.Rhs[0]).(type) {
+					case *ast.CompositeLit:
+						fresh = true
+					case *ast.CallExpr:
+						if f, ok := r.Fun.(*ast.Ident); ok && f.Name == "make" {
+							fresh = true
+						}
+					}
+					if !fresh {
+						return true
+					}
+					res.Obligations++
+					res.Count("inner_map_installations", 1)
+					elem := types.ExprString(ix)
+					okGuard := false
+					// (a) enclosing conditions
+					var child ast.Node = as
+					for p := par[as]; p != nil && !okGuard; child, p = p, par[p] {
+						switch x := p.(type) {
+						case *ast.IfStmt:
+							inThen := child == ast.Node(x.Body)
+							if be, ok := ast.Unparen(x.Cond).(*ast.BinaryExpr); ok && be.Op == token.EQL && inThen {
+								if types.ExprString(ast.Unparen(be.X)) == elem && types.ExprString(be.Y) == "nil" {
+									okGuard = true
+								}
+							}
+							if init, ok := x.Init.(*ast.AssignStmt); ok && len(init.Lhs) == 2 && len(init.Rhs) == 1 && types.ExprString(ast.Unparen(init.Rhs[0])) == elem {
+								okName := types.ExprString(init.Lhs[1])
+								c := ast.Unparen(x.Cond)
+								if u, isNot := c.(*ast.UnaryExpr); isNot && u.Op == token.NOT && types.ExprString(ast.Unparen(u.X)) == okName && inThen {
+									okGuard = true
+								}
+								if types.ExprString(c) == okName && !inThen {
+									okGuard = true
+								}
+							}
+						case *ast.CaseClause:
+							for _, e := range x.List {
+								if be, ok := ast.Unparen(e).(*ast.BinaryExpr); ok && be.Op == token.EQL && types.ExprString(ast.Unparen(be.X)) == elem && types.ExprString(be.Y) == "nil" {
+									okGuard = true
+								}
+							}
+						}
+					}
+					// (b) the method established that the key is new, or removes it
+					if !okGuard {
+						key := types.ExprString(ix.Index)
+						ast.Inspect(fd.Body, func(y ast.Node) bool {
+							switch x := y.(type) {
+							case *ast.IfStmt:
+								// if _, exists := g.nodes[key]; exists { panic }
+								if init, ok := x.Init.(*ast.AssignStmt); ok && len(init.Rhs) == 1 {
+									if rix, ok := ast.Unparen(init.Rhs[0]).(*ast.IndexExpr); ok && types.ExprString(rix.Index) == key && x.Pos() < as.Pos() {
+										for _, st := range x.Body.List {
+											if es, ok := st.(*ast.ExprStmt); ok {
+												if c, ok := es.X.(*ast.CallExpr); ok && cfgx.IsPanic(info, c) {
+													okGuard = true
+												}
+											}
+										}
+									}
+								}
+							case *ast.CallExpr:
+								if f, ok := x.Fun.(*ast.Ident); ok && f.Name == "delete" && len(x.Args) == 2 && types.ExprString(x.Args[1]) == key {
+									okGuard = true
+								}
+							}
+							return !okGuard
+						})
+					}
+					if !okGuard {
+						res.Add(core.Finding{Rule: "GRAPHINV.mapinit", Key: fmt.Sprintf("GRAPHINV.mapinit|%s|%s", name, elem), Pos: core.Pos(as.Pos()), Func: name,
+							Msg: fmt.Sprintf("%s is given a fresh map without a test that it is nil or absent: when it already holds entries (other neighbours of the node) they are all dropped", elem)})
+					}
+					return true
+				})
+			}
+		}
+	}
+	return res
+}
